@@ -474,6 +474,62 @@ def run(ctx):
             pred_fail.append(("C18:write-length", "written frame is not header + payload long", {"case": c, "obs": o}))
         dist["write:" + ["ok", "size", "big", "other", "panic"][o["cls"]]] = dist.get("write:" + ["ok", "size", "big", "other", "panic"][o["cls"]], 0) + 1
 
+    # ================================================================= framing: streams of messages on one connection
+    # Several messages written by one writer and read by ONE reader, which holds on to every message and is
+    # compared with what was written only after the whole stream has been read (later frames smaller than,
+    # equal to and larger than earlier ones): the model has message VALUES (P2P/Stream.v), the implementation
+    # hands out payload slices, so buffer sharing between the messages of a connection shows up only here.
+    rng = ctx.rng
+    ST = []
+
+    def smsg(n, fill=None):
+        pay = bytes([fill]) * n if fill is not None else rng.randbytes(n)
+        return {"proto": rng.choice([1, 2, 3, 0x10, 0x11, 0x20, 0x3014, 2 ** 32 - 1]), "ts": rng.randrange(-2 ** 63, 2 ** 63),
+                "id": hx(rng.randbytes(16)), "orig": hx(rng.randbytes(16)), "payload": hx(pay)}
+    size_patterns = [[5, 3], [3, 5], [8, 8], [0, 4, 0], [100, 10, 1], [1, 10, 100], [7, 7, 7, 7], [300, 0, 299, 300, 1],
+                     [LIM, 1, LIM], [4096, 4095, 4097, 2], [5000, 100, 4999]]
+    for pat in size_patterns:
+        mx = LIM if max(pat) <= LIM else 8192
+        ST.append({"op": "stream", "max": mx, "msgs": [smsg(n, 0xa0 + i) for i, n in enumerate(pat)], "chunk": 0, "scribble": False})
+        ST.append({"op": "stream", "max": mx, "msgs": [smsg(n) for n in pat], "chunk": rng.choice([0, 1, 7, 48, 49]), "scribble": True})
+    for _ in range(12 if quick else 300):
+        k = rng.randrange(2, 9)
+        base = rng.choice([4, 64, 600])
+        ST.append({"op": "stream", "max": LIM, "msgs": [smsg(rng.randrange(0, base + 1)) for _ in range(k)],
+                   "chunk": rng.choice([0, 0, 3, 50]), "scribble": rng.random() < 0.5})
+    rc, log, SO = run_engine(ctx, b030, "TestVerifC18FrameEngine", ST, "frame_stream")
+    if rc != 0 or len(SO) != len(ST):
+        raise RuntimeError("frame engine (streams) failed rc=%s obs=%d/%d:\n%s" % (rc, len(SO), len(ST), log[-3000:]))
+    sitems, ssrc = [], []
+    for c, o in zip(ST, SO):
+        want = c["msgs"]
+        held, at_read = o.get("held") or [], o.get("at_read") or []
+        rep = {"case": {"max": c["max"], "chunk": c["chunk"], "sizes": [len(m["payload"]) // 2 for m in want], "msgs": want},
+               "held_after_whole_stream": held, "seen_at_read": at_read, "err": o.get("err")}
+        if o["cls"] != 0:
+            pred_fail.append(("C18:stream-engine-error", "writing/reading a stream of messages failed: %s" % o.get("err"), rep))
+            continue
+        if at_read != want:
+            pred_fail.append(("C18:stream-not-read-back", "a stream of messages written to one connection was not read back identically "
+                              "(compared at the time of each read)", rep))
+        if held != want:
+            i = next((i for i, (a, b) in enumerate(zip(held, want)) if a != b), min(len(held), len(want)))
+            pred_fail.append(("C18:stream-held-message-altered",
+                              "message #%d of %d read from one connection differs from what was written once the later frames have been "
+                              "read (payload sizes %s): messages delivered by ReadMsg share a buffer" % (
+                                  i, len(want), [len(m["payload"]) // 2 for m in want]), rep))
+        if o.get("err"):
+            pred_fail.append(("C18:stream-payload-aliasing", o["err"], rep))
+        if o.get("end_cls") != 1:
+            pred_fail.append(("C18:stream-end", "reading past the last frame did not end with a clean header error", rep))
+        ms = "[" + "; ".join(coq_msg(m["proto"], len(m["payload"]) // 2, m["ts"], bytes.fromhex(m["id"]), bytes.fromhex(m["orig"]),
+                                    bytes.fromhex(m["payload"])) for m in want) + "]"
+        hs_ = "[" + "; ".join(coq_msg(m["proto"], len(m["payload"]) // 2, m["ts"], bytes.fromhex(m["id"]), bytes.fromhex(m["orig"]),
+                                     bytes.fromhex(m["payload"])) for m in held) + "]"
+        sitems.append("(%d, %s, %s, %s)" % (c["max"], ms, cb(bytes.fromhex(o["wire"])), hs_))
+        ssrc.append(rep)
+        dist["stream:%d-msgs" % min(len(want), 5)] = dist.get("stream:%d-msgs" % min(len(want), 5), 0) + 1
+
     # ================================================================= framing: reads
     R = gen_reads(ctx, W, WO)
     for c in corpus.get("reads", []):
@@ -715,6 +771,10 @@ def run(ctx):
         "Definition MK := Eval vm_compute in mismatches_from blockid_case_ok kcases 0.", "Print MK.",
         "Definition MV := Eval vm_compute in mismatches_from (fun c : list N * list N => bytes_eqb (fst c) (snd c))",
         "  [(accepted_inbound_versions, %s); ([v031; v032; v033; v200; v_unknown; header_len], %s)] 0." % (vlist, clist), "Print MV."]))
+    shards.append(("stream", "stream", 0, head + [
+        "From Verif Require Import P2P.Stream.",
+        "Definition scases : list (N * list msg * bytes * list msg) := [%s]." % ";\n".join(sitems),
+        "Definition MS := Eval vm_compute in mismatches_from stream_case_ok scases 0.", "Print MS."]))
     HSH = 400
     hs_def = ["Definition hs_ok (c : N * local * status * N) : bool :=",
               "  let '(v, l, st, cls) := c in",
@@ -778,6 +838,12 @@ def run(ctx):
                 corr.append(("ReadMsg and read_msg differ (class / decoded fields / rest)", [dict(case=rcases[off + i][0], obs=rcases[off + i][1]) for i in res["MR"][:5]]))
             if res["MA"]:
                 corr.append(("measured allocation of ReadMsg outside [alloc, alloc*9/8+16K] of the model", [dict(case=rcases[off + i][0], obs=rcases[off + i][1]) for i in res["MA"][:5]]))
+        elif kind == "stream":
+            if "MS" not in res:
+                corr.append(("model evaluation unparsable (%s)" % name, out[-1000:]))
+            elif res["MS"]:
+                corr.append(("a stream of messages on one connection and P2P/Stream.v (write_stream / read_stream) differ",
+                             [ssrc[i] for i in res["MS"][:3]]))
         elif kind == "inb":
             if "MI" not in res:
                 corr.append(("model evaluation unparsable (%s)" % name, out[-1000:]))
@@ -812,7 +878,7 @@ def run(ctx):
     lap("model evaluation")
     ctx.cov["timing_s"] = tm
     # ================================================================= evidence
-    evals = len(W) + len(R) + len(HS) + len(BC) + len(chain_obs) + len(neg_cases)
+    evals = len(W) + len(R) + len(ST) + len(HS) + len(BC) + len(chain_obs) + len(neg_cases)
     ctx.cov["evaluations"] = evals
     ctx.cov["traces_validated_against_impl"] = evals
     nontriv = set()
